@@ -61,10 +61,11 @@ def run(env, rep):
     # every length the encoder writes goes through one of the conversions checked above or through a conversion that cannot
     # truncate (TryFrom): count the length fields of the output grammar, so that the rule cannot pass on an encoder it does not see
     n_len = 0
-    for b in fns:
-        ex = grammar.emitted(env, b.key)
+    table0, _adt0 = amf0.variant_encoders(env, rep, "C04.R1")
+    for vname, (vpaths, _b, _u) in sorted((table0 or {}).items()):
+        # per value type, with helpers followed in place (a length computed by one helper and written by another is still a length)
         roles = set()
-        for p in grammar.ok_paths(ex):
+        for p in vpaths:
             for t in p:
                 if len(t) >= 5 and t[1] == "hole" and amf0.canon_role(t[2]).startswith("len:"):
                     roles.add((t[0], amf0.canon_role(t[2])))
